@@ -74,14 +74,17 @@ func (m *M) chanSend(c ChanV, v Value) {
 		panic(execPanic{msg: "send on closed channel"})
 	}
 	if len(d.Buf) >= d.Cap {
-		if m.ex.Cfg.GoMode == "skip" || m.ex.Cfg.GoMode == "inline" {
+		if m.ex.Cfg.GoMode == "pump" && m.inGoroutine() {
+			panic(goPark{})
+		}
+		if m.ex.Cfg.GoMode == "skip" || m.ex.Cfg.GoMode == "inline" || m.ex.Cfg.GoMode == "pump" {
 			// unbuffered or full: the receiver is a goroutine we do not run; model as delivered (queue grows)
 			m.ex.noteAssumption("blocking channel sends complete immediately (receiver goroutine not modelled)")
 		} else {
 			abortf("blocking channel send")
 		}
 	}
-	m.st.setObj(c.Obj, &ChanData{Buf: append(append([]Value(nil), d.Buf...), v), Cap: d.Cap})
+	m.st.setObj(c.Obj, &ChanData{Buf: append(append([]Value(nil), d.Buf...), v), Cap: d.Cap, Timer: d.Timer})
 }
 
 func (m *M) chanRecv(c ChanV, commaOk bool, t types.Type) Value {
@@ -102,10 +105,13 @@ func (m *M) chanRecv(c ChanV, commaOk bool, t types.Type) Value {
 			}
 			return zero(et)
 		}
+		if m.ex.Cfg.GoMode == "pump" && m.inGoroutine() {
+			panic(goPark{})
+		}
 		abortf("blocking channel receive")
 	}
 	v := d.Buf[0]
-	m.st.setObj(c.Obj, &ChanData{Buf: append([]Value(nil), d.Buf[1:]...), Cap: d.Cap, Closed: d.Closed})
+	m.st.setObj(c.Obj, &ChanData{Buf: append([]Value(nil), d.Buf[1:]...), Cap: d.Cap, Closed: d.Closed, Timer: d.Timer})
 	if commaOk {
 		return TupleV{v, smt.True}
 	}
@@ -170,7 +176,7 @@ func (m *M) selectOp(f *Frame, in *ssa.Select) Value {
 		if len(d.Buf) > 0 {
 			res[ri] = d.Buf[0]
 			res[1] = smt.True
-			m.st.setObj(c.Obj, &ChanData{Buf: append([]Value(nil), d.Buf[1:]...), Cap: d.Cap, Closed: d.Closed})
+			m.st.setObj(c.Obj, &ChanData{Buf: append([]Value(nil), d.Buf[1:]...), Cap: d.Cap, Closed: d.Closed, Timer: d.Timer})
 		}
 	} else {
 		m.chanSend(c, m.get(f, s.Send))
